@@ -230,7 +230,24 @@ def _one_pass(F, an, entries, sites, tree):
 
 def loops_and_recursion(F, tree):
     """Returns (recursive SCCs, list of (fn, header-ish block set, driver description or None))."""
-    rec = F.recursive_fns(tree.keys())
+    rec = []
+    for comp in F.recursive_fns(tree.keys()):
+        # a cycle that only exists through trait dispatch on a type parameter of the impl's own type
+        # (e.g. `<Wrapper<T> as Default>::default` calling `T::default()`) recurses on a strictly smaller
+        # type term: bounded by the (finite) nesting depth of the type, not by data
+        structural = True
+        for p in comp:
+            f = F.fns[p]
+            for b, t in f.calls():
+                if any(tp in comp for tp in F.call_targets(f, t)):
+                    c = core.callee_of(t)
+                    st = (c or {}).get("self_ty", {})
+                    im = f.j.get("impl", {})
+                    if not (c and c.get("resolved") is None and st.get("k") == "param" and st.get("name") in (f.j.get("generics") or [])
+                            and im.get("self_ty", {}).get("k") == "adt"):
+                        structural = False
+        if not structural:
+            rec.append(comp)
     loops = []
     for p in sorted(tree):
         f = F.fns[p]
@@ -458,3 +475,158 @@ def capacity_budget(F, an, sites):
                 s.detail += " | budget: %s = %d > capacity %d" % (" + ".join(parts), total, cap)
             else:
                 s.detail += " | budget: a loop trip count or increment is unknown"
+
+
+def accumulator_budget(F, an, sites):
+    """Idiom: `x += d` inside counted loop(s) where x is a loop-carried accumulator whose only in-loop
+    definition is this addition: x <= x0 + (product of trip counts) * max(d) must fit the type."""
+    for s in sites:
+        if s.status is not None or s.desc != "assert:Overflow:Add":
+            continue
+        f = s.f
+        t = f.blocks[s.bb]["term"]
+        m = t["msg"]
+        loops = [(h, body) for h, body in f.natural_loops() if s.bb in body]
+        if not loops:
+            continue
+        # which operand is the accumulator: a multi-definition local with exactly one definition inside the loop,
+        # namely the result of this checked addition
+        acc = None
+        for side in ("a", "b"):
+            l = root_local(f, m[side])
+            if l is None:
+                continue
+            ds = [d for d in f.defs_of(l) if not f.blocks[d[0]]["cleanup"]]
+            body = min((b for h, b in loops), key=len)
+            inside = [d for d in ds if d[0] in set().union(*[b for h, b in loops])]
+            if len(ds) >= 2 and len(inside) == 1 and feeds_from(f, inside[0], s.bb):
+                acc = (side, l)
+        if acc is None:
+            continue
+        obs = an.add_obs.get((f.path, s.bb))
+        if not obs or obs[0] is None or obs[1] is None:
+            continue
+        a_iv, b_iv = obs if acc[0] == "a" else (obs[1], obs[0])
+        mult = 1
+        ok = True
+        allloops = f.natural_loops()
+        for h, body in loops:
+            tr = loop_trip(F, an, f, h, body, allloops)
+            if tr is None:
+                ok = False
+                break
+            mult *= tr
+        if not ok:
+            s.detail += " | accumulator: loop trip count unknown"
+            continue
+        rng = ia.ty_range(f.locals[acc[1]]["ty"])
+        bound = a_iv[0] + mult * b_iv[1]
+        if rng and bound <= rng[1]:
+            s.status = "budget"
+            s.detail = "accumulator budget: %d + %d x %d = %d <= %d" % (a_iv[0], mult, b_iv[1], bound, rng[1])
+        else:
+            s.detail += " | accumulator: %d + %d x %d = %d exceeds the type" % (a_iv[0], mult, b_iv[1], bound)
+
+
+def root_local(f, operand, depth=0):
+    p = core.op_place(operand)
+    if p is None or p["proj"] or depth > 8:
+        return None
+    l = p["local"]
+    ds = [d for d in f.defs_of(l) if not f.blocks[d[0]]["cleanup"]]
+    if len(ds) == 1 and ds[0][1] != "term" and ds[0][2]["k"] == "assign" and ds[0][2]["rv"]["k"] == "use":
+        r = root_local(f, ds[0][2]["rv"]["op"], depth + 1)
+        return r if r is not None else l
+    return l
+
+
+def feeds_from(f, d, add_bb):
+    """Is definition d `x = move (_t.0)` where _t is the checked-add pair asserted in block add_bb?"""
+    b, i, st = d
+    if i == "term" or st["k"] != "assign" or st["rv"]["k"] != "use":
+        return False
+    p = core.op_place(st["rv"]["op"])
+    if p is None or not p["proj"]:
+        return False
+    pair = p["local"]
+    t = f.blocks[add_bb]["term"]
+    c = core.op_place(t["cond"])
+    return c is not None and c["local"] == pair and f.blocks[add_bb]["term"]["target"] == b
+
+
+def apply_obligations(F, A, an, sites):
+    """Discharge remaining sites through the reviewed table; returns (requirement results, unused entry ids)."""
+    import re
+    from . import obligations, requires
+    R = requires.Req(F, A, an)
+    used = set()
+    for s in sites:
+        if s.status is not None:
+            continue
+        for ob in obligations.OBL:
+            if not re.search(ob["fn"], s.f.key):
+                continue
+            if not re.search(ob["site"], s.desc):
+                continue
+            if ob.get("operand") and not re.search(ob["operand"], s.operand):
+                continue
+            res = [(r,) + R.check(r) for r in ob["requires"]]
+            bad = [r for r in res if not r[1]]
+            if bad:
+                s.detail = "reviewed obligation %s no longer applies: dependency %s does not hold (%s) | %s" % (ob["id"], bad[0][0], bad[0][2][:200], s.detail)
+                s.failed_req = bad[0][0]
+            else:
+                s.status = "obl"
+                s.detail = "obligation %s: %s [requires %s]" % (ob["id"], ob["reason"], ", ".join(ob["requires"]))
+                used.add(ob["id"])
+            break
+    return R, used
+
+
+def run(chk, F, A, entries, label, allow_recursion=(), tag=""):
+    """Full PF pass for one configuration and entry set; records obligations / violations on chk."""
+    an = ia.Analyzer(F)
+    tree = F.reachable(entries)
+    sites = enumerate_sites(F, tree)
+    discharge_with_ia(F, an, entries, sites, tree)
+    capacity_budget(F, an, sites)
+    accumulator_budget(F, an, sites)
+    R, used = apply_obligations(F, A, an, sites)
+    by = {}
+    for s in sites:
+        by[s.status or "open"] = by.get(s.status or "open", 0) + 1
+    chk.count("functions_reachable[%s]" % label, len(tree))
+    chk.count("panic_sites[%s]" % label, len(sites))
+    for k, v in by.items():
+        chk.count("sites_%s[%s]" % (k, label), v)
+    chk.count("panic_sites", len(sites))
+    chk.count("functions_reachable", len(tree))
+    for s in sites:
+        ok = s.status is not None
+        chain = " <- ".join(reversed(F.chain(tree, s.f.path)[-6:]))
+        chk.ob("P2.site-discharged", "%s%s" % (s.key, tag), ok,
+               "panic-capable site not discharged: %s in %s\n  operand: %s\n  %s\n  call chain: %s" % (s.desc, s.f.path, s.operand, s.detail, chain),
+               where=s.where(), sample=(s.status == "obl" and len(chk.samples) < 30))
+        if ok and len(chk.samples) < 50 and s.status in ("budget", "obl"):
+            chk.samples.append({"site": s.key, "status": s.status, "how": s.detail[:220]})
+    # P3 termination
+    rec, loops = loops_and_recursion(F, tree)
+    for comp in rec:
+        allowed = all(any(core.strip_generics(p) == a for a in allow_recursion) for p in comp)
+        okr = False
+        if allowed:
+            okr, det = R.check("tree-recursion-bounded")
+        chk.ob("P3.no-unbounded-recursion", "%s%s" % ("+".join(core.strip_generics(p) for p in comp), tag), allowed and okr,
+               "recursion among %s reachable from the entry points%s" % (comp, "" if not allowed else " is not visibly bounded (guarded doubling of the node index)"))
+    nl = 0
+    for f, comp, driver in loops:
+        nl += 1
+        chk.ob("P3.loop-terminates", "%s@%d%s" % (f.key, min(comp), tag), driver is not None,
+               "loop in %s (blocks %s) is neither driven by a finite iterator nor has a strictly decreasing measure" % (f.path, sorted(comp)[:6]), where=f.loc(min(comp)))
+    chk.count("loops[%s]" % label, nl)
+    chk.count("loops", nl)
+    # extern callee classes (P4)
+    seen = sorted(an.extern_seen.items(), key=lambda kv: -kv[1])
+    chk.note("%s: %d sites: %s; extern callees seen by IA: %d (partial per rules/summaries.py: enumerated as sites; others assumed total)"
+             % (label, len(sites), by, len(seen)))
+    return sites, an
